@@ -464,7 +464,13 @@ class InProtocolBase(ProtocolMixin):
         return getattr(cls, value)
 
     def model_base_from_bytes(self, cls, value):
-        return cls.from_bytes(value)
+        try:
+            from_bytes = cls.from_bytes
+        except AttributeError:
+            # e.g. AnyDict in a flat (query string) document
+            raise ValidationError(value, "%%r: %s can't be read from a string"
+                                                        % cls.get_type_name())
+        return from_bytes(value)
 
     def datetime_from_unicode_iso(self, cls, string):
         astz = self.get_cls_attrs(cls).as_timezone
